@@ -38,6 +38,7 @@ func runC01(c *Ctx) {
 	c.rule("R1", "acquisition is one exclusive create: TryLock returns nil only on the nil side of afero.Fs.Mkdir(lockPath) through l.fs.vfs; no MkDir/MkDirAll/MkdirAll on the lock path; Lock returns nil only where TryLock did and waits/retries only on ErrLocked", 4)
 	c.rule("R2", "in a function retried by retry.Do, after a removal of the lock path returned nil no path returns a non-nil error (the removal must not be re-run)", 2)
 	c.rule("R3", "stale take-over: between the staleness verdict and the removal of the lock path there is an atomic claim (Rename/Move of the lock path to a private name)", 1)
+	c.rule("R8", "the staleness verdict that licenses a take-over measures every age against the holder's heartbeat period", 1)
 	c.rule("R7", "the staleness verdict that licenses a take-over reads the files found by a plain listing of the lock directory (never a pattern search over the lock path, never a name computed from the observer's id)", 1)
 	c.rule("R6", "the staleness verdict that licenses a take-over counts a heartbeat file it cannot read as a sign of life", 1)
 	c.rule("R5", "inside the lock implementation only Unlock removes lockPath() and only ReleaseIfStale calls Unlock: acquire paths never release", 2)
@@ -391,6 +392,34 @@ func runC01(c *Ctx) {
 		bad := c.c17JudgedPaths(isStaleM, comb)
 		c.check(bad == "", "R7", fname(isStaleM)+"/judges-what-is-there", c.pos(isStaleM.Pos()), "the verdict that licenses a take-over reads the files listed in the lock directory",
 			"the age read at "+bad+" is not that of a file found by a plain listing of the lock directory: a live lock can be judged by something else than its heartbeat file (the directory's own age, a file named after the observer) and taken over while it is held")
+	}
+
+	// ---- R8 ---------------------------------------------------------------
+	// … and it measures every age — that of a heartbeat file, that of a lock directory still empty — against the period
+	// the holder beats at: a verdict computed from another duration of the lock (the polling interval, say) declares a
+	// holder dead before its first heartbeat is due (shared with C17/S2).
+	if isStaleM := c.fnOpt(fsPkgRel, "(*RemoteLockFile).IsStale"); isStaleM != nil {
+		bad, n := "", 0
+		allInstrs(isStaleM, func(in ssa.Instruction) {
+			cl, ok := in.(*ssa.Call)
+			if !ok {
+				return
+			}
+			g := staticCallee(&cl.Call)
+			if g == nil || !inPkg(fsPkgRel)(g) || len(cl.Call.Args) == 0 {
+				return
+			}
+			last := cl.Call.Args[len(cl.Call.Args)-1]
+			if last.Type().String() != "time.Duration" {
+				return
+			}
+			n++
+			if _, isPeriod := fieldLoad(last, "RemoteLockFile", "lockHeartBeatPeriod"); !isPeriod {
+				bad = c.ipos(cl)
+			}
+		})
+		c.check(n > 0 && bad == "", "R8", fname(isStaleM)+"/judged-by-the-beat-period", c.pos(isStaleM.Pos()), "every age is measured against l.lockHeartBeatPeriod",
+			"the age test at "+bad+" is given another duration than l.lockHeartBeatPeriod: a lock directory (or heartbeat file) is declared stale on a threshold that has nothing to do with how often its holder beats — a fresh holder whose first heartbeat has not landed yet is taken over")
 	}
 
 	// ---- R4 ---------------------------------------------------------------
